@@ -745,3 +745,51 @@ def gen_chain(idx):
     _tag(m)
     m.tags |= {"chain", "join", "fork", "publish"}
     return m, {}
+
+
+def mcycle_family():
+    return [(k, body, bound, shared, fork) for k in (2, 3) for body in ("self", "pair") for bound in (0, 1)
+            for shared in (False, True) for fork in (False, True)]
+
+
+def gen_mcycle(idx):
+    """multi-entry cycles: k parallel entry tasks each publish a variable of their own (and optionally append to a shared
+    one) on their transition to the same task `p`, which is in a cycle (a transition to itself, or p -> q -> p) whose
+    condition allows `bound` further passes.  `p` is not a join and is not split (it is in a cycle): it runs once per
+    arrival on the same route.  Passes that overlap in time collide on (task, route) (finding F20, tagged by its cause);
+    passes one after the other are lawful and fully checked - with every completion order both kinds occur."""
+    fam = mcycle_family()
+    k, body, bound, shared, fork = fam[idx % len(fam)]
+    m = Model()
+    m.input = [("xs", [10, 20, 30]), ("n", 2), ("k", 2)]
+    m.vars = [("i", 0), ("x", "init")] + [("v%d" % q, "unset") for q in range(k)]
+    ents = ["e%d" % q for q in range(k)]
+    if fork:
+        r = Task("r")
+        r.action = "ovf.ok"
+        r.trans.append(Tr(0, cond=("succeeded",), lang="yaql", do=list(ents)))
+        m.tasks["r"] = r
+    for q, nm in enumerate(ents):
+        t = Task(nm)
+        t.action = "ovf.ok"
+        pubs = [("v%d" % q, ("lit", "from_%s" % nm))]
+        if shared:
+            pubs.append(("x", ("cat", "x", "|%s" % nm)))
+        t.trans.append(Tr(0, cond=("succeeded",), lang=("yaql", "jinja")[q % 2], pubs=pubs, do=["p"]))
+        m.tasks[nm] = t
+    p = Task("p")
+    p.action = "ovf.ok"
+    m.tasks["p"] = p
+    last = p
+    if body == "pair":
+        qq = Task("q")
+        qq.action = "ovf.ok"
+        m.tasks["q"] = qq
+        p.trans.append(Tr(0, cond=("succeeded",), lang="yaql", do=["q"]))
+        last = qq
+    last.trans.append(Tr(len(last.trans), cond=("and", ("succeeded",), ("ctx_lt", "i", bound)), lang="yaql",
+                         pubs=[("i", ("inc", "i"))] + ([("x", ("cat", "x", "|loop"))] if shared else []), do=["p"]))
+    m.output = [("v%d" % q, ("ref", "v%d" % q), ("yaql", "jinja")[q % 2]) for q in range(k)] + [("x", ("ref", "x"), "yaql"), ("i", ("ref", "i"), "yaql")]
+    _tag(m)
+    m.tags |= {"loop", "loop_multi_entry", "publish", "mcycle"}
+    return m, {}
